@@ -51,6 +51,15 @@ static GenProg gen_program(std::mt19937 &rng) {
       } else if (r < 91) { enc(t, 4, 8 + rng() % target); t.push_back(0xD0); }
       else if (r < 93) { enc(t, 3, val()); enc(t, 1, 1); enc(t, 8, 2); enc(t, 3, 0); t.push_back(0xD3); }
       else if (r < 95) { enc(t, 3, sp + (rng() % 3) - 1); enc(t, 2, 1); }       // move the stack pointer a little
+      else if (r < 96) {
+        // self-modifying code: store a word of LDAC-1 bytes over the word being executed, then run into the rewritten lanes
+        // (an implementation that fetches from a stale copy of the word executes the old LDAC 0 bytes)
+        enc(t, 3, 0x31313131u);
+        while (t.size() % 4) t.push_back(0x30);
+        u32 w = (u32)(t.size() / 4);
+        if (w < 16) { t.push_back(0x20 | w); t.push_back(0x30); t.push_back(0x30); t.push_back(0x30); }
+        else if (w < 256) { t.push_back(0xE0 | (w >> 4)); t.push_back(0x20 | (w & 15)); t.push_back(0x30); t.push_back(0x30); }
+      }
       else if (r < 97) t.push_back(rng() % 256);
       else enc(t, 14 + rng() % 2, rng() % 16);
     }
